@@ -9,6 +9,8 @@ use vstd::prelude::*;
 
 verus! {
 
+//@ include std_specs.inc
+
 // ---------------------------------------------------------------- trusted prelude
 // std functions the extracted code calls that vstd does not specify; each is the
 // documented std behaviour (assumed, listed in evidence.trusted_base).
